@@ -131,6 +131,12 @@ def finish(prop, pd, tier, seed, results, wall, write_baseline=False):
 
     # ---- replay files + VIOLATION lines
     os.makedirs(os.path.join(VERIF, "replays"), exist_ok=True)
+    import glob
+    for old in glob.glob(os.path.join(VERIF, "replays", "%s_*.json" % prop)):
+        try:
+            os.unlink(old)
+        except OSError:
+            pass
     vio_lines = []
     seen_paths = set()
     for v in violations:
